@@ -24,7 +24,7 @@ def _stdlib_runsource(ctx):
         raise core.AnalysisError(f"cannot read stdlib code.py: {e}")
     m = Module(path, ast.parse(text), text)
     f = m.func("InteractiveInterpreter.runsource")
-    ctx.require(f is not None, "stdlib InteractiveInterpreter.runsource not found")
+    ctx.need(f is not None, "stdlib InteractiveInterpreter.runsource not found")
     rets = [n for n in pyq.walk_no_nested(f) if isinstance(n, ast.Return)]
     facts = dict(false_after_runcode=False, false_after_syntaxerror=False, true_when_incomplete=False)
     for r in rets:
@@ -63,7 +63,7 @@ def check(ctx, src):
     ctx.require(rs is not None and rc is not None, "REPL.runsource / REPL.runcode not found")
     ctx.functions.update({f"{REL}:REPL.runsource", f"{REL}:REPL.runcode"})
     std = _stdlib_runsource(ctx)
-    ctx.require(std["false_after_runcode"] and std["false_after_syntaxerror"] and std["true_when_incomplete"],
+    ctx.need(std["false_after_runcode"] and std["false_after_syntaxerror"] and std["true_when_incomplete"],
                 f"stdlib InteractiveInterpreter.runsource no longer has the three documented cases: {std}")
     ctx.ok("REPL-FRESH", "stdlib|code.InteractiveInterpreter.runsource", "returns False both after showsyntaxerror and after runcode, True when incomplete")
 
